@@ -166,7 +166,7 @@ fn main() {
                                 0xFFFA_0000_0000_0001, 0xFFFB_0000_0000_0000, 0xFFF9_0000_0000_0005];
     let lite = flag("--lite");                           // quick tier: smaller core cross product
     let core: Vec<u64> = if lite {
-        vec![int(0), int(1), int(-1), int(-(1 << 47)), int(64), flt(0.0), flt(1.5), flt(f64::INFINITY), flt(f64::NAN),
+        vec![int(0), int(1), int(-1), int(-(1 << 47)), int(64), flt(0.0), flt(-0.0), flt(1.5), flt(f64::INFINITY), flt(f64::NAN),
              Value::bool(true).raw_bits(), Value::null().raw_bits(), ptrs[0], ptrs[1], ptrs[2]]
     } else {
         let mut c = vec![int(0), int(1), int(-1), int(7), int(-(1 << 47)), int((1 << 47) - 1), int(64),
@@ -198,6 +198,18 @@ fn main() {
     for (name, op) in BIN_OPS {
         let mut cases: Vec<(u64, u64)> = Vec::new();
         for &a in &core { for &b in &core { cases.push((a, b)); } }
+        // float pairs where value equality and bit equality come apart (signed zeros, NaN payloads),
+        // equal values, and zeros against ints: every opcode gets them, in both orders
+        let nz = flt(-0.0);
+        let specials: [(u64, u64); 22] = [
+            (flt(0.0), nz), (nz, flt(0.0)), (flt(0.0), flt(0.0)), (nz, nz),
+            (flt(f64::NAN), flt(f64::NAN)), (flt(f64::NAN), 0x7FFC_0000_0000_0001), (0x7FFC_0000_0000_0001, 0x7FFC_0000_0000_0001),
+            (0xFFFE_0000_0000_0123, 0x7FF0_0000_0000_0001), (0x7FF0_0000_0000_0001, 0x7FF0_0000_0000_0001), (flt(f64::NAN), nz), (nz, flt(f64::NAN)),
+            (flt(f64::INFINITY), flt(f64::INFINITY)), (flt(f64::NEG_INFINITY), flt(f64::INFINITY)), (flt(1.5), flt(1.5)),
+            (1, 0x8000_0000_0000_0001), (0x8000_0000_0000_0001, 1), (flt(9007199254740992.0), flt(9007199254740993.0)),
+            (int(0), nz), (nz, int(0)), (int(0), flt(0.0)), (flt(2.0), int(2)), (int(2), flt(2.0)),
+        ];
+        cases.extend(specials.iter().cloned());
         for _ in 0..pairs {
             let a = if rng.chance(2, 3) { *rng.pick(&pool) } else { rand_word(&mut rng) };
             let b = if rng.chance(2, 3) { *rng.pick(&pool) } else { rand_word(&mut rng) };
